@@ -56,6 +56,7 @@ type pathState struct {
 	linked    map[*decAtom]bool
 	tblVars   map[tblKey]*Term // large-table reads abstracted on this path
 	tblRecs   []*tblRec
+	pinned    map[int]uint64 // terms concretised to a value on this path
 	tblFacts  []*Term
 	asserts   int
 	unsatAsserts int
@@ -364,6 +365,10 @@ func (fr *frame) concretize(s symv) int64 {
 		}
 		return int64(c)
 	}
+	// a term already pinned to a value on this path needs no new decision
+	if c, ok := p.pinned[t.id]; ok {
+		return ret(c)
+	}
 	for iter := 0; iter < in.cfg.ConcretizeLimit; iter++ {
 		if t.lo == t.hi {
 			return ret(t.lo)
@@ -384,6 +389,10 @@ func (fr *frame) concretize(s symv) int64 {
 		eq := in.st.Eq(t, in.st.Const(t.w, c))
 		if p.decs[idx].alt == 0 {
 			in.assume(eq)
+			if p.pinned == nil {
+				p.pinned = map[int]uint64{}
+			}
+			p.pinned[t.id] = c
 			return ret(c)
 		}
 		in.assume(in.st.Not(eq))
@@ -517,7 +526,7 @@ func (fr *frame) indexValue(elems []value, idx value) value {
 
 // tableAbstraction over-approximates a read of a large constant integer
 // table at a symbolic index: the result is a fresh variable constrained to
-// the (at most 8) value intervals that cover the table's entries over the
+// the (at most 33) value intervals that cover the table's entries over the
 // feasible index range.  The index-to-value relation is dropped, which is
 // sound for "holds" verdicts; a counterexample that depends on it does not
 // reproduce natively and is reported as inconclusive, never as a violation.
@@ -557,12 +566,16 @@ func (fr *frame) tableAbstraction(elems []value, lo, hi uint64, idx *Term, k typ
 		}
 	}
 	sort.Slice(gaps, func(a, b int) bool { return gaps[a].size > gaps[b].size })
-	if len(gaps) > 7 {
-		gaps = gaps[:7]
+	if len(gaps) > 31 {
+		gaps = gaps[:31]
 	}
 	cut := map[int]bool{}
 	for _, g := range gaps {
 		cut[g.at] = true
+	}
+	// zero is the usual "no entry" sentinel: always an interval of its own
+	if len(vals) > 1 && vals[0] == 0 {
+		cut[1] = true
 	}
 	p := in.path
 	key := tblKey{&elems[0], idx.id}
@@ -779,6 +792,11 @@ func (fr *frame) assert(cond value, id string) {
 	if r == Unsat {
 		in.Stats.Unsat++
 		in.sv.Pop()
+		if c == in.st.ff {
+			// "false" cannot hold: the path condition itself is unsatisfiable
+			// (facts learnt after a branch was taken, e.g. table refinement)
+			panic(pathEnd{kind: "infeasible"})
+		}
 		p.unsatAsserts++
 		in.assumeQuiet(c)
 		return
@@ -859,8 +877,12 @@ func (in *Interp) outcomeViolation(id, msg string) bool {
 		in.sv.Assert(in.st.Not(kf))
 		defer in.sv.Pop()
 	}
-	model, ok := in.fullModel()
-	if !ok {
+	model, mr := in.fullModelR()
+	if mr == Unsat {
+		// the path that ended this way is not feasible
+		return false
+	}
+	if mr != Sat {
 		model = map[string]int64{}
 	}
 	v := in.mkViolation(nil, id, msg, model)
